@@ -64,6 +64,38 @@ theorem startPiece_reg {pw : Pid → List Wid} {x x' : X} {t : Tid} {op : Op} {f
 @[simp] theorem setCtl_reg (e : Env) (t : Tid) (c : Ctl) : (setCtl e t c).reg = e.reg := rfl
 @[simp] theorem popProg_reg (e : Env) (t : Tid) : (popProg e t).reg = e.reg := rfl
 
+/-- the controller of `as_completed` (round 11): a step starts a piece or only moves the controller -/
+theorem acExec_base {pw : Pid → List Wid} {x x' : X} {t : Tid} {act : AAct} (h : acExec pw x t act = some x') :
+    x'.base = x.base ∨ ∃ u, step? pw u x.base t = some x'.base := by
+  unfold acExec at h
+  split at h
+  · exact Or.inr ⟨_, startPiece_base h⟩
+  · simp only [Option.some.injEq] at h; subst h; exact Or.inl rfl
+
+theorem acExec_reg {pw : Pid → List Wid} {x x' : X} {t : Tid} {act : AAct} (h : acExec pw x t act = some x') :
+    x'.env.reg = x.env.reg := by
+  unfold acExec at h
+  split at h
+  · rw [startPiece_reg h]; rfl
+  · simp only [Option.some.injEq] at h; subst h; rfl
+
+theorem acstep_plan {pw : Pid → List Wid} {x x' : X} {t : Tid} {a : AC} (h : acstep pw x t a = some x') :
+    ∃ act, acPlan a (x.base.T t).script.head? (lastRes x t) x.env.callSt (x.env.lastAlive t) (x.env.acRaced t)
+      (decide (x.env.now - x.env.sticker t < x.env.thr)) ((x.env.tcalls t).getLast?.getD 0) = some act ∧
+      acExec pw x t act = some x' := by
+  unfold acstep at h
+  split at h
+  · exact ⟨_, by assumption, h⟩
+  · exact absurd h (by simp)
+
+theorem acstep_base {pw : Pid → List Wid} {x x' : X} {t : Tid} {a : AC} (h : acstep pw x t a = some x') :
+    x'.base = x.base ∨ ∃ u, step? pw u x.base t = some x'.base := by
+  obtain ⟨act, _, he⟩ := acstep_plan h; exact acExec_base he
+
+theorem acstep_reg {pw : Pid → List Wid} {x x' : X} {t : Tid} {a : AC} (h : acstep pw x t a = some x') :
+    x'.env.reg = x.env.reg := by
+  obtain ⟨act, _, he⟩ := acstep_plan h; exact acExec_reg he
+
 /-- A controller step starts a piece (an `Owner` step) or only moves the controller. -/
 theorem cstep_base {pw : Pid → List Wid} {x x' : X} {t : Tid} {c : Ctl} (h : cstep pw x t c = some x') :
     x'.base = x.base ∨ ∃ u, step? pw u x.base t = some x'.base := by
@@ -71,6 +103,7 @@ theorem cstep_base {pw : Pid → List Wid} {x x' : X} {t : Tid} {c : Ctl} (h : c
   repeat' split at h
   all_goals first
     | exact Or.inr ⟨_, startPiece_base h⟩
+    | exact acstep_base h
     | (simp only [Option.some.injEq, reduceCtorEq] at h; subst h; exact Or.inl rfl)
     | exact absurd h (by simp)
 
@@ -80,6 +113,7 @@ theorem cstep_reg {pw : Pid → List Wid} {x x' : X} {t : Tid} {c : Ctl} (h : cs
   repeat' split at h
   all_goals first
     | (rw [startPiece_reg h]; rfl)
+    | exact acstep_reg h
     | (simp only [Option.some.injEq, reduceCtorEq] at h; subst h; rfl)
     | exact absurd h (by simp)
 
@@ -145,6 +179,12 @@ theorem XReach_xrun {pw : Pid → List Wid} {x0 : X} (ts : List Tid) :
   · split <;> rfl
   · rfl
   · rfl
+
+@[simp] theorem afterAliveAC_reg (e : Env) (t : Tid) (k : K) (b : Bool) : (afterAliveAC e t k b).reg = e.reg := by
+  unfold afterAliveAC
+  simp only
+  repeat' split
+  all_goals simp [setCall]
 
 @[simp] theorem startE_reg (e : Env) (t : Tid) (op : EOp) : (startE e t op).reg = e.reg := by
   cases op with
@@ -238,6 +278,9 @@ theorem xstep_reg {pw : Pid → List Wid} {x x' : X} {t : Tid} (h : xstep? pw x 
           simp only at h
           rw [startPiece_reg h]; rfl
         | submitNB p w r =>
+          simp only at h
+          rw [startPiece_reg h]; rfl
+        | asCompleted p tasks ign take fixed =>
           simp only at h
           rw [startPiece_reg h]; rfl
     | _ =>
